@@ -1230,7 +1230,7 @@ pub trait ObservableExt<Item, Err>: Sized {
   fn delay_at<SD>(self, at: Instant, scheduler: SD) -> DelayOp<Self, SD> {
     DelayOp {
       source: self,
-      delay: at.elapsed(),
+      delay: at.saturating_duration_since(Instant::now()),
       scheduler,
     }
   }
@@ -1244,7 +1244,7 @@ pub trait ObservableExt<Item, Err>: Sized {
   ) -> DelayOpThreads<Self, SD> {
     DelayOpThreads {
       source: self,
-      delay: at.elapsed(),
+      delay: at.saturating_duration_since(Instant::now()),
       scheduler,
     }
   }
@@ -1269,7 +1269,7 @@ pub trait ObservableExt<Item, Err>: Sized {
   ) -> DelaySubscriptionOp<Self, SD> {
     DelaySubscriptionOp {
       source: self,
-      delay: at.elapsed(),
+      delay: at.saturating_duration_since(Instant::now()),
       scheduler,
     }
   }
